@@ -3,6 +3,7 @@
 package service_test
 
 import (
+	"bytes"
 	"fmt"
 	"math/big"
 	"sort"
@@ -14,6 +15,7 @@ import (
 	"github.com/icon-project/goloop/chain/base"
 	"github.com/icon-project/goloop/common"
 	"github.com/icon-project/goloop/common/codec"
+	"github.com/icon-project/goloop/common/crypto"
 	"github.com/icon-project/goloop/common/db"
 	"github.com/icon-project/goloop/common/log"
 	"github.com/icon-project/goloop/module"
@@ -49,9 +51,15 @@ var (
 	// XFERA: nested real plain TransferHandler frame payer -> hx-alias of the chain
 	// SCORE; it debits the payer and then fails (InvalidAddress), so the frame of
 	// the REAL handler must be rolled back
-	c16Prims       = []string{"A+1", "A:=0", "B+1", "SET", "DEL", "EVT", "BTP", "STEP", "XFER", "F+1", "XFERF", "GSET", "XFERA"}
-	c16PrimsQuick3 = []string{"A:=0", "BTP", "STEP", "XFERF", "F+1", "XFERA"}
-	c16PrimsDeep4  = []string{"A:=0", "XFERA", "SET", "BTP", "STEP", "XFERF", "F+1"}
+	// OG1 / OG0: SetObjGraph on the scripted contract account (which has an active
+	// contract and an object graph from the setup block): OG1 stores a new graph
+	// (includeGraph=true), OG0 only a new nextHash (includeGraph=false)
+	c16Prims       = []string{"A+1", "A:=0", "B+1", "SET", "DEL", "EVT", "BTP", "STEP", "XFER", "F+1", "XFERF", "GSET", "XFERA", "OG1", "OG0"}
+	c16PrimsQuick3 = []string{"A:=0", "OG0", "XFERF", "F+1", "XFERA"}
+	c16PrimsMid3   = []string{"A:=0", "OG0", "OG1", "SET", "STEP", "XFERF", "F+1", "XFERA"}
+	c16PrimsDeep4  = []string{"A:=0", "XFERA", "SET", "OG0", "STEP", "XFERF", "F+1"}
+	c16CodeID      = bytes.Repeat([]byte{0xc1}, 32) // deploy tx hash = code id of the scripted contract
+	c16Graph0      = []byte("graph0")
 	// addresses aliasing an existing account of the other kind (accounts are keyed by the 20-byte body)
 	c16HxOfSystem   = common.MustNewAddressFromString("hx0000000000000000000000000000000000000000")
 	c16DeployedCx   = common.MustNewAddressFromString("cx00000000000000000000000000000000000d3b10") // made a contract account by the setup block
@@ -223,6 +231,20 @@ func (h *c16Handler) runSetup(cc contract.CallContext) error {
 	if _, err := as.SetValue([]byte(c16Key), []byte(c16OldValue)); err != nil {
 		return err
 	}
+	// make the scripted address a contract account with an ACTIVE contract and an
+	// object graph, as a Java SCORE that was called before has
+	if !as.InitContractAccount(c16God.Address()) {
+		return fmt.Errorf("scripted account already a contract")
+	}
+	if _, err := as.DeployContract([]byte("verif scripted contract"), state.JavaEE, "application/java", nil, c16CodeID); err != nil {
+		return err
+	}
+	if err := as.AcceptContract(c16CodeID, c16CodeID); err != nil {
+		return err
+	}
+	if err := as.SetObjGraph(c16CodeID, true, 1, c16Graph0); err != nil {
+		return err
+	}
 	// a second contract account (what the deploy handler does first: InitContractAccount)
 	if !cc.GetAccountState(c16DeployedCx.ID()).InitContractAccount(c16God.Address()) {
 		return fmt.Errorf("contract account already initialised")
@@ -255,6 +277,14 @@ func (h *c16Handler) apply(cc contract.CallContext, kind string, tag int) error 
 		as.SetBalance(new(big.Int).Add(as.GetBalance(), big.NewInt(1)))
 	case "GSET":
 		if _, err := cc.GetAccountState(c16FreshCx.ID()).SetValue([]byte(c16Key), append([]byte("g"), c16Tag(tag)...)); err != nil {
+			return err
+		}
+	case "OG1":
+		if err := cc.GetAccountState(sc.score.ID()).SetObjGraph(c16CodeID, true, 200+tag, append([]byte("graph"), c16Tag(tag)...)); err != nil {
+			return err
+		}
+	case "OG0":
+		if err := cc.GetAccountState(sc.score.ID()).SetObjGraph(c16CodeID, false, 100+tag, nil); err != nil {
 			return err
 		}
 	case "EVT":
@@ -385,6 +415,8 @@ type c16Obs struct {
 	PayerBal   string
 	TreasBal   string
 	OtherBal   string
+	OG         string // object graph of the scripted contract, live: next/graphHash/data
+	OGStored   string // same, from the state re-opened from the flushed snapshot ("" = not re-opened for this case)
 	FreshBal   string // balance of the fresh EOA ("<absent>" if the account does not exist)
 	FreshCxBal string
 	FreshCxVal string // storage value of the fresh contract address
@@ -407,6 +439,7 @@ type c16Ctx struct {
 	pre     [4]*c16Obs // observation of the pre-state itself (balances)
 	refs    [4]map[string]*c16Obs
 	realRef [4]*c16RealObs
+	reopen  bool // next exec also flushes and re-opens the post-state
 	treas   module.Address
 }
 
@@ -463,6 +496,9 @@ func c16NewCtx() (*c16Ctx, error) {
 		wss := service.VerifWorldSnapshot(tr)
 		c.pre[vi] = &c16Obs{}
 		c.fillState(c.pre[vi], wss)
+		if c.pre[vi].OG != c16ExpectedOG(nil) {
+			return nil, fmt.Errorf("object graph not installed: %s", c.pre[vi].OG)
+		}
 		if c.pre[vi].FreshBal != "<absent>" || c.pre[vi].FreshCxBal != "<absent>" {
 			return nil, fmt.Errorf("fresh accounts exist in the pre-state: %+v", *c.pre[vi])
 		}
@@ -479,6 +515,7 @@ func (c *c16Ctx) fillState(o *c16Obs, wss state.WorldSnapshot) {
 	o.TreasBal = balanceOf(wss, c.treas).String()
 	o.OtherBal = balanceOf(wss, c.sc.other).String()
 	o.ScoreBal = balanceOf(wss, c.sc.score).String()
+	o.OG = c16ObjGraphOf(wss, c.sc.score)
 	o.FreshBal = "<absent>"
 	if as := wss.GetAccountSnapshot(c16FreshEOA.ID()); as != nil {
 		o.FreshBal = as.GetBalance().String()
@@ -496,6 +533,37 @@ func (c *c16Ctx) fillState(o *c16Obs, wss state.WorldSnapshot) {
 			o.ScoreVal = string(v)
 		}
 	}
+}
+
+// c16ObjGraphOf reads the object graph of the scripted contract: (nextHash,
+// graphHash) with flags=false and the data with flags=true.
+func c16ObjGraphOf(wss state.WorldSnapshot, addr module.Address) string {
+	as := wss.GetAccountSnapshot(addr.ID())
+	if as == nil {
+		return "<no account>"
+	}
+	n, h, _, err := as.GetObjGraph(c16CodeID, false)
+	if err != nil {
+		return "<none:" + err.Error() + ">"
+	}
+	n2, h2, d, err := as.GetObjGraph(c16CodeID, true)
+	if err != nil || n2 != n || !bytes.Equal(h, h2) {
+		return fmt.Sprintf("<inconsistent next=%d/%d hash=%x/%x err=%v>", n, n2, h, h2, err)
+	}
+	return fmt.Sprintf("next=%d hash=%x data=%q", n, h, d)
+}
+
+func c16ExpectedOG(eff []c16Effect) string {
+	n, data := 1, c16Graph0
+	for _, e := range eff {
+		switch e.Kind {
+		case "OG1":
+			n, data = 200+e.Pos, append([]byte("graph"), c16Tag(e.Pos)...)
+		case "OG0":
+			n = 100 + e.Pos
+		}
+	}
+	return fmt.Sprintf("next=%d hash=%x data=%q", n, crypto.SHA3Sum256(data), data)
 }
 
 func (c *c16Ctx) normHash(wss state.WorldSnapshot) (string, error) {
@@ -550,6 +618,18 @@ func (c *c16Ctx) exec(vi int, limit int64) (*c16Obs, error) {
 		return nil, err
 	}
 	c.fillState(o, wss)
+	if c.reopen {
+		// flush the post-state and read the object graph back from a world
+		// re-opened from the database (what a restarted node would see)
+		if err := wss.Flush(); err != nil {
+			return nil, err
+		}
+		stored, err := service.NewWorldSnapshot(c.fn.node.Chain.Database(), c.fn.plt, tr.Result(), tr.NextValidators())
+		if err != nil {
+			return nil, err
+		}
+		o.OGStored = c16ObjGraphOf(stored, c.sc.score)
+	}
 	sc := c.sc
 	o.Ran, o.Effects, o.NestFail, o.NestOK, o.XferFail, o.StepFail = sc.ran, sc.outerEff, sc.nestedFail, sc.nestedOK, sc.xferFail, sc.stepFailed
 	if sc.outerErr != nil {
@@ -580,8 +660,25 @@ func (c *c16Ctx) reference(vi int, eff []c16Effect) (*c16Obs, error) {
 	return o, nil
 }
 
+func scriptLen(s *c16Script) int {
+	if s == nil {
+		return 0
+	}
+	n := scriptLen(s.Nested)
+	for _, a := range s.Acts {
+		if a != "CALL" {
+			n++
+		}
+	}
+	return n
+}
+
 func (c *c16Ctx) run(cs *c16Case) (*c16Obs, error) {
 	c.sc.cur, c.sc.flat = cs.Script, false
+	// scripts that touch the object graph and have <= 2 actions are also read
+	// back from the flushed snapshot (bounded so that the database stays small)
+	c.reopen = scriptLen(cs.Script) <= 2 && (scriptHas(cs.Script, "OG0") || scriptHas(cs.Script, "OG1"))
+	defer func() { c.reopen = false }()
 	return c.exec(cs.Variant, c16Variants[cs.Variant].limit())
 }
 
@@ -704,6 +801,16 @@ func (e *c16Env) check(c *c16Ctx, cs *c16Case, o *c16Obs) {
 		fail(kind+"-leaves-"+what+"-of-rolled-back-frame", fmt.Sprintf("normalised state hash %s, reference (surviving effects only) %s; storage=%q/%q scoreBal=%s/%s otherBal=%s/%s freshEOA=%s/%s freshCx=%s,%q/%s,%q",
 			o.NormHash, ref.NormHash, o.ScoreVal, ref.ScoreVal, o.ScoreBal, ref.ScoreBal, o.OtherBal, ref.OtherBal, o.FreshBal, ref.FreshBal, o.FreshCxBal, o.FreshCxVal, ref.FreshCxBal, ref.FreshCxVal))
 	}
+	// object graph of the contract: the pre-state's for a failed transaction,
+	// the last surviving SetObjGraph otherwise (explicit, not via the reference)
+	if want := c16ExpectedOG(surviving); o.OG != want {
+		fail(kind+"-object-graph-differs-from-surviving-frames", fmt.Sprintf("object graph after the transaction: %s\nexpected (pre-state + surviving SetObjGraph calls): %s\nsingle-frame reference: %s", o.OG, want, ref.OG))
+	} else if o.OGStored != "" && o.OGStored != want {
+		fail(kind+"-stored-object-graph-differs-from-surviving-frames", fmt.Sprintf("object graph re-read from the flushed snapshot: %s\nlive: %s expected: %s", o.OGStored, o.OG, want))
+	}
+	if o.OGStored != "" {
+		e.count("object-graph-reread-from-flushed-snapshot")
+	}
 	if o.BTPData != ref.BTPData {
 		fail(kind+"-btp-digest-differs", fmt.Sprintf("btp digest %s reference %s", o.BTPData, ref.BTPData))
 	}
@@ -792,6 +899,16 @@ func (e *c16Env) check(c *c16Ctx, cs *c16Case, o *c16Obs) {
 	if o.XferFail > 0 {
 		e.count("nested-real-transfer-failed")
 	}
+	if scriptHas(cs.Script, "OG0") || scriptHas(cs.Script, "OG1") {
+		switch {
+		case failed:
+			e.count("object-graph-set-then-tx-failed")
+		case hasKind(surviving, "OG0") || hasKind(surviving, "OG1"):
+			e.count("object-graph-change-survived")
+		default:
+			e.count("object-graph-set-in-rolled-back-frame-of-successful-tx")
+		}
+	}
 	if scriptHas(cs.Script, "XFERA") {
 		if failed {
 			e.count("real-transfer-frame-failed-after-debit,tx-failed")
@@ -866,7 +983,7 @@ func (sh *c16Shape) build(prims []int, alphabet []string) *c16Script {
 func TestVerifC16(t *testing.T) {
 	r := ev.Start(t, "C16", "exploration")
 	maxT := r.Pick(3, 4)
-	r.Rule(fmt.Sprintf("family 1 (scripted): all scripts with <= %d primitive actions in total from {A+1,A:=0,B+1,SET,DEL,EVT,BTP,STEP,XFER(nested real TransferHandler frame payer->existing B),F+1(direct credit of a FRESH EOA),XFERF(nested real transfer payer->the FRESH EOA),GSET(storage write on a FRESH contract address),XFERA(nested real plain TransferHandler frame payer->hx alias of the chain SCORE: debits, then fails InvalidAddress)} laid out as outer-before / one optional nested cc.Call frame / outer-after (every split), nested and outer terminator each from {OK,REVERT(32),OOS,INVALID,OOB}, on 4 variants {payer balance = stepLimit*price | large} x {step limit large | small}; total = 4 (thorough only) on the two opposite variants over {A:=0,XFERA,SET,BTP,STEP,XFERF,F+1}; quick: total <= 1 on all variants, total = 2 on the two opposite variants, total = 3 on the first variant over {A:=0,BTP,STEP,XFERF,F+1,XFERA}. Family 2 (no scripted handler): real v3 transactions through the real handlers that fail after a partial effect, see real_tx_family in coverage. A case = (variant, script) or (variant, block); every case is executed by a real transition", maxT))
+	r.Rule(fmt.Sprintf("family 1 (scripted): all scripts with <= %d primitive actions in total from {A+1,A:=0,B+1,SET,DEL,EVT,BTP,STEP,XFER(nested real TransferHandler frame payer->existing B),F+1(direct credit of a FRESH EOA),XFERF(nested real transfer payer->the FRESH EOA),GSET(storage write on a FRESH contract address),XFERA(nested real plain TransferHandler frame payer->hx alias of the chain SCORE: debits, then fails InvalidAddress),OG1(SetObjGraph with a new graph on the scripted contract account),OG0(SetObjGraph with includeGraph=false: only a new nextHash)} laid out as outer-before / one optional nested cc.Call frame / outer-after (every split), nested and outer terminator each from {OK,REVERT(32),OOS,INVALID,OOB}, on 4 variants {payer balance = stepLimit*price | large} x {step limit large | small}; total = 4 (thorough only) on the two opposite variants over {A:=0,XFERA,SET,OG0,STEP,XFERF,F+1}; thorough total = 3: all 15 primitives on the two opposite variants, {A:=0,OG0,OG1,SET,STEP,XFERF,F+1,XFERA} on the other two; quick: total <= 1 on all variants, total = 2 on the two opposite variants, total = 3 on the first variant over {A:=0,OG0,XFERF,F+1,XFERA}. Family 2 (no scripted handler): real v3 transactions through the real handlers that fail after a partial effect, see real_tx_family in coverage. A case = (variant, script) or (variant, block); every case is executed by a real transition", maxT))
 	r.Assume("the designated contract address runs a scripted contract.SyncContractHandler installed through a ContractManager wrapper (FixtureConfig.NewPlatform); everything else is real",
 		"reference for the expected world: the same machinery executing, in ONE frame, exactly the effects of the frames that returned success (metamorphic); payer/treasury balances are compared explicitly and zeroed before hashing",
 		"which frames failed is known to the harness because its own handler returns the errors; step accounting, frame snapshot/reset, receipts are goloop's",
@@ -981,6 +1098,9 @@ func TestVerifC16(t *testing.T) {
 		if r.Quick() && ch.sh.t == 3 {
 			alphabet = c16PrimsQuick3
 		}
+		if r.Thorough() && ch.sh.t == 3 && ch.vi != 0 && ch.vi != 3 {
+			alphabet = c16PrimsMid3
+		}
 		if ch.sh.t == 4 {
 			alphabet = c16PrimsDeep4
 		}
@@ -1039,6 +1159,8 @@ func TestVerifC16(t *testing.T) {
 	r.Set("outcome_classes", classes)
 	for _, need := range []string{"success", "nested-failed-outer-succeeded", "nested-succeeded-outer-failed", "nested-real-transfer-failed", "nested-real-transfer-succeeded",
 		"real-transfer-frame-failed-after-debit,tx-failed", "real-transfer-frame-failed-after-debit,tx-succeeded",
+		"object-graph-set-then-tx-failed", "object-graph-change-survived", "object-graph-set-in-rolled-back-frame-of-successful-tx",
+		"object-graph-reread-from-flushed-snapshot",
 		"fresh-account-touched-then-tx-failed", "fresh-account-effect-survived", "fresh-account-touched-in-rolled-back-frame-of-successful-tx",
 		"ran-out-of-steps-in-place", "fee-rollback-after-successful-script",
 		fmt.Sprintf("failed:status-%d", module.StatusReverted), fmt.Sprintf("failed:status-%d", module.StatusOutOfStep),
